@@ -230,3 +230,68 @@ Proof.
   destruct rs as [|r0 rest]; cbn [remove_overlapping_ranges]; [intros _ [= <- _]; constructor|].
   intros W. inversion W; subst. apply (ror_loop_sorted n); auto. repeat constructor.
 Qed.
+
+(* ---- the same with only the column count fixed (empty columns allowed) ---- *)
+Definition haslen (n : nat) (r : range) : Prop := length r = n.
+Lemma merge_one_length a b m : length a = length b -> merge_one a b = Some m -> length m = length a.
+Proof.
+  revert b m. induction a as [|x a IH]; intros [|y b] m L; cbn [merge_one]; try discriminate. cbn in L.
+  destruct (rce_equals x y).
+  - destruct (merge_one a b) as [m'|] eqn:M; try discriminate. intros [= <-]. cbn. f_equal. apply (IH b); [lia|exact M].
+  - destruct (r_equals a b); try discriminate. destruct (try_union x y); try discriminate. intros [= <-]. reflexivity.
+Qed.
+Lemma try_merge_length n a b m : haslen n a -> haslen n b -> try_merge a b = Some m -> haslen n m.
+Proof.
+  unfold haslen. intros La Lb. unfold try_merge, r_is_superset_of. destruct (negb _); [discriminate|].
+  destruct (r_is_subset_of b a); [intros [= <-]; exact La|]. destruct (r_is_subset_of a b); [intros [= <-]; exact Lb|].
+  intros M. rewrite (merge_one_length a b m) by (try lia; exact M). exact La.
+Qed.
+Lemma remove_overlap_length n fuel : forall a b out ok, haslen n a -> haslen n b ->
+  remove_overlap fuel a b = Some (out, ok) -> Forall (haslen n) out.
+Proof.
+  induction fuel as [|f IH]; intros a b out ok La Lb; cbn [remove_overlap]; [discriminate|].
+  destruct (try_merge a b) as [m|] eqn:M.
+  - intros [= <- <-]. constructor; [exact (try_merge_length n a b m La Lb M)|constructor].
+  - destruct (negb (r_overlaps a b)); [intros [= <- <-]; repeat constructor; assumption|].
+    destruct (first_diff a b) as [i|]; [|intros [= <- <-]; constructor].
+    destruct (remove_overlap f _ _) as [[rs ok']|] eqn:R; try discriminate. intros [= <- <-].
+    apply Forall_app. split; [|apply Forall_app; split].
+    + apply Forall_forall. intros r Ir. apply in_map_iff in Ir. destruct Ir as [c [<- _]]. unfold haslen. rewrite replace_length. exact La.
+    + apply Forall_forall. intros r Ir. apply in_map_iff in Ir. destruct Ir as [c [<- _]]. unfold haslen. rewrite replace_length. exact Lb.
+    + eapply IH; [| |exact R]; unfold haslen; rewrite replace_length; assumption.
+Qed.
+Theorem ror_loop_sorted_len n fuel : forall finds tr work c out c',
+  Forall (haslen n) tr -> Forall (haslen n) work -> ssorted tr ->
+  ror_loop fuel finds tr work c = (ROk out, c') -> ssorted out.
+Proof.
+  induction fuel as [|f IH]; intros finds tr work c out c' Wt Ww S.
+  - destruct work as [|rang work]; cbn [ror_loop]; [|discriminate].
+    destruct (any_overlap _); [discriminate|]. intros [= <- _]. apply get_range_collection_sorted. exact S.
+  - destruct work as [|rang work]; cbn [ror_loop].
+    + destruct (any_overlap _); [discriminate|]. intros [= <- _]. apply get_range_collection_sorted. exact S.
+    + destruct finds as [|found finds]; [discriminate|].
+      destruct (find_sound tr rang found) eqn:FS; cbn [negb]; [|discriminate].
+      inversion Ww as [|? ? Wr Ww']; subst.
+      destruct (first_ok found rang) as [[[cn news]|]|] eqn:FO; [| |discriminate].
+      * intros H. destruct (first_ok_some _ _ _ _ FO) as [Hin RO].
+        assert (Hc : In cn tr).
+        { unfold find_sound in FS. rewrite forallb_forall in FS. specialize (FS cn Hin).
+          apply andb_prop in FS. apply tree_mem_in. tauto. }
+        pose proof Wt as Wt0. rewrite Forall_forall in Wt0. pose proof (Wt0 cn Hc) as Wc.
+        unfold remove_overlap_top in RO. pose proof (remove_overlap_length n _ _ _ _ _ Wc Wr RO) as Wn.
+        refine (IH _ _ _ _ _ _ _ _ _ H).
+        -- apply Forall_forall. intros x Ix. apply Wt0. eapply tree_remove_in; eauto.
+        -- apply Forall_app. split; assumption.
+        -- apply tree_remove_sorted. exact S.
+      * intros H. refine (IH _ _ _ _ _ _ _ _ _ H).
+        -- apply Forall_forall. intros x Ix. destruct (tree_insert_in _ _ _ Ix) as [->|Ix']; [exact Wr|].
+           rewrite Forall_forall in Wt. apply Wt. exact Ix'.
+        -- exact Ww'.
+        -- apply (tree_insert_sorted n); [exact Wr|exact Wt|exact S].
+Qed.
+Theorem remove_overlapping_ranges_sorted_len n fuel finds rs out c :
+  Forall (haslen n) rs -> remove_overlapping_ranges fuel finds rs = (ROk out, c) -> ssorted out.
+Proof.
+  destruct rs as [|r0 rest]; cbn [remove_overlapping_ranges]; [intros _ [= <- _]; constructor|].
+  intros W. inversion W; subst. apply (ror_loop_sorted_len n); auto. repeat constructor.
+Qed.
